@@ -51,8 +51,17 @@ def relay_universe():
 WEIRD_SYMTAB = {"i1": 1, "f1": 1.0, "i0": 0, "bF": False, "f0": 0.0, "i5": 5, "bT": True, "nN": None, "f15": 1.5, "lst": ["x", 1, None], "neg": -7, "big": 2 ** 53, "obj": {"k": "v"}, "e0": ""}
 
 
+def _mixed_case(h):
+    return "".join(ch.upper() if k % 2 else ch for k, ch in enumerate(h))
+
+
+WEIRD_SYMTAB.update({"UX": "AB" * 32, "mixP": _mixed_case(C.pubkey("A")), "upE": ("0123456789abcdef" * 4).upper()})
+
+
 def weird_events():
     return [
+        # 64-digit hex tag items spelled with upper-case digits: the same bytes to a decoder, not the same text
+        E("wx", "B", 1, 42, [["t", "a"], ["x", "UX"], ["p", "mixP"]]), E("wy", "A", 1, 43, [["t", "a"], ["e", "upE", "wss://r"], ["p", "mixP"]]),
         E("w1", "A", 1, 32, [["t", "a"], ["n", "i5", "bT", "nN", "f15"], ["q", "lst", "obj"], ["e0"], ["t", "e0", "neg", "big"]]),
         E("w2", "B", 7, 33, [["t", "a"], ["r", "f15", "i5"]]),
         # tags that are equal in Python but differ as JSON (1 / true / 1.0, 0 / false / 0.0)
